@@ -1,5 +1,6 @@
 import Spok.Lemmas.Hash
 import Spok.Lemmas.HashPool
+import Spok.Lemmas.HashJudge
 /-! # Property C18 — hashing any path list returns cleanly: no crash, deadlock, race or leak
 
 **PARTIAL BY NATURE.** What is proved is the *channel protocol* of `hash.Concurrent.Hash` (`Spok.HashPool`: feeder,
@@ -22,7 +23,7 @@ the behaviour of the *real scheduler and kernel* (file reads, files vanishing wh
 only by the correspondence runs: child-process crash observation, goroutine-count accounting, schedule perturbation
 through `hash.VerifYield`, GOMAXPROCS ∈ {1,2,4,16}, restricted CPU affinity, and `-race` builds in the thorough tier. -/
 namespace Spok.Props.C18
-open Spok.Hash Spok.HashPool
+open Spok.Hash Spok.HashPool Spok.Judge.Hash
 
 variable {ρ : Type}
 
@@ -72,10 +73,8 @@ theorem pool_can_finish {ncpu : Nat} (hcpu : 0 < ncpu) {jobs : List (Option ρ)}
 
 /-- an unreadable member makes the call an error — never a digest (the function) -/
 theorem unreadable_is_error (sha : Bytes → Bytes) {files : List (Path × Entry)} {p : Path}
-    (h : (p, Entry.unreadable) ∈ files) : digest sha files = .error .unreadable := by
-  rw [digest_eq]
-  have : files.any isUnreadable = true := List.any_eq_true.mpr ⟨_, h, rfl⟩
-  simp [this]
+    (h : (p, Entry.unreadable) ∈ files) : digest sha files = .error .unreadable :=
+  digest_error_of_unreadable sha h
 
 /-- … and so it is for every schedule and worker count of the pool -/
 theorem pool_unreadable_is_error (sha : Bytes → Bytes) {ncpu : Nat} (hcpu : 0 < ncpu) {files : List (Path × Entry)}
@@ -91,14 +90,24 @@ theorem pool_unreadable_is_error (sha : Bytes → Bytes) {ncpu : Nat} (hcpu : 0 
 
 /-- a list without unreadable members yields a digest, never an error (for every schedule: `C04_schedule_independent`) -/
 theorem readable_is_digest (sha : Bytes → Bytes) {files : List (Path × Entry)}
-    (h : ∀ pe ∈ files, pe.2 ≠ .unreadable) : ∃ d, digest sha files = .ok d := by
-  rw [digest_eq]
-  have : files.any isUnreadable = false := by
-    apply List.any_eq_false.mpr
-    intro pe hpe; have := h pe hpe
-    obtain ⟨p, e⟩ := pe
-    cases e <;> simp_all [isUnreadable]
-  simp [this]
+    (h : ∀ pe ∈ files, pe.2 ≠ .unreadable) : ∃ d, digest sha files = .ok d :=
+  digest_ok_of_readable sha h
+
+/-- the judge accepts what the model does, for every group of lists: a digest or an error, an error whenever a member
+    cannot be opened or read, nothing left behind -/
+theorem C18_judge_accepts_model (sha : Bytes → Bytes) (vs : List (Rel × Obs)) :
+    c18 (vs.map fun v => modelRun sha v.1 v.2) false = true := by
+  simp only [c18, Bool.not_false, Bool.true_and]
+  apply List.all_eq_true.mpr
+  intro r hr
+  obtain ⟨v, _, rfl⟩ := List.mem_map.mp hr
+  have hret : ([outOf (digest sha (filesOf v.2))]).all Out.returned = true := by
+    cases digest sha (filesOf v.2) <;> simp [outOf, Out.returned]
+  cases hu : (v.2.map (·.1)).any Kind.unreadable with
+  | false => simp [modelRun, hu, hret]
+  | true =>
+    obtain ⟨p, hp⟩ := unreadable_mem hu
+    simp [modelRun, hu, digest_error_of_unreadable sha hp, outOf, Out.returned]
 
 /-! ## non-vacuity, and why the hypothesis `0 < ncpu` is there -/
 
